@@ -33,6 +33,9 @@ type PubReq struct {
 	Token    string    `json:"token,omitempty"` // ok none wrong
 	Unknown  bool      `json:"unknown_field,omitempty"`
 	Chunked  bool      `json:"chunked,omitempty"` // request body of undeclared length
+	// Scoped: endpoint-scoped (managed) publish POST /applications/{app}/endpoints/{name}/messages/publish
+	ScopedApp string `json:"scoped_app,omitempty"`
+	ScopedEP  string `json:"scoped_ep,omitempty"`
 }
 
 type AdminMut struct {
@@ -101,22 +104,32 @@ func (w *PublishWorld) adminHeaders(token string, reason bool) []KV {
 
 // itemVerdict: reference validation of one item (nil = acceptable); returns the
 // envelope the item stands for.
-func (w *PublishWorld) itemVerdict(it *PubItem, id string, seen map[string]bool) (string, *queue.Envelope) {
+func (w *PublishWorld) itemVerdict(it *PubItem, id string, seen map[string]bool, scoped ...*RouteSpec) (string, *queue.Envelope) {
 	if strings.TrimSpace(id) == "" {
 		return "blank_id", nil
 	}
 	if seen[strings.TrimSpace(id)] {
 		return "dup_in_batch", nil
 	}
-	r := w.Spec.route(strings.TrimSpace(it.Route))
-	if r == nil {
-		return "unknown_route", nil
-	}
-	if r.PublishOff || r.DirectOff {
-		return "publish_disabled", nil
-	}
-	if r.App != "" {
-		return "managed_route", nil
+	var r *RouteSpec
+	if len(scoped) > 0 && scoped[0] != nil {
+		// endpoint-scoped publish: the route is the endpoint's; an item must not
+		// name a route (or application / endpoint) of its own
+		r = scoped[0]
+		if strings.TrimSpace(it.Route) != "" {
+			return "selector_hint", nil
+		}
+	} else {
+		r = w.Spec.route(strings.TrimSpace(it.Route))
+		if r == nil {
+			return "unknown_route", nil
+		}
+		if r.PublishOff || r.DirectOff {
+			return "publish_disabled", nil
+		}
+		if r.App != "" {
+			return "managed_route", nil
+		}
 	}
 	targets := r.targets()
 	target := strings.TrimSpace(it.Target)
@@ -195,7 +208,7 @@ func (w *PublishWorld) Publish(pr *PubReq) {
 	loc := "admin/publish"
 	type wire struct {
 		ID         string            `json:"id"`
-		Route      string            `json:"route"`
+		Route      string            `json:"route,omitempty"`
 		Target     string            `json:"target,omitempty"`
 		PayloadB64 string            `json:"payload_b64,omitempty"`
 		Headers    map[string]string `json:"headers,omitempty"`
@@ -206,6 +219,9 @@ func (w *PublishWorld) Publish(pr *PubReq) {
 	var ids []string
 	for i := range pr.Items {
 		it := &pr.Items[i]
+		if pr.ScopedApp != "" && it.Bad != "selector_hint" {
+			it.Route = "" // the path says which endpoint is meant; only a deliberate hint stays
+		}
 		id := it.ID
 		switch {
 		case it.DupRef != nil && len(w.ids) > 0:
@@ -220,13 +236,32 @@ func (w *PublishWorld) Publish(pr *PubReq) {
 			b64 = base64.StdEncoding.EncodeToString(it.Payload)
 		}
 		items = append(items, wire{ID: id, Route: it.Route, Target: it.Target, PayloadB64: b64, Headers: it.Headers, ReceivedAt: it.RecvAt, NextRunAt: it.NextAt})
+
 	}
 	body := map[string]any{"items": items}
 	if pr.Unknown {
 		body["force"] = true
 	}
 	b, _ := json.Marshal(body)
-	req, err := NewRequest("POST", "/messages/publish", "admin.internal", "127.0.0.1:9", w.adminHeaders(pr.Token, !pr.NoReason), b, pr.Chunked)
+	path := "/messages/publish"
+	var scopedRoute *RouteSpec
+	scopedRefused := 0 // request-level refusal of the scoped path: status (0 = none)
+	if pr.ScopedApp != "" {
+		path = "/applications/" + pr.ScopedApp + "/endpoints/" + pr.ScopedEP + "/messages/publish"
+		loc = "admin/publish/scoped"
+		for i := range w.Spec.Routes {
+			if rr := &w.Spec.Routes[i]; rr.App == pr.ScopedApp && rr.Endpoint == pr.ScopedEP {
+				scopedRoute = rr
+			}
+		}
+		switch {
+		case scopedRoute == nil:
+			scopedRefused = 404
+		case scopedRoute.PublishOff || scopedRoute.ManagedOff:
+			scopedRefused = 403
+		}
+	}
+	req, err := NewRequest("POST", path, "admin.internal", "127.0.0.1:9", w.adminHeaders(pr.Token, !pr.NoReason), b, pr.Chunked)
 	if err != nil {
 		return
 	}
@@ -256,12 +291,24 @@ func (w *PublishWorld) Publish(pr *PubReq) {
 		w.Res.probe("publish.unauthorised")
 		return
 	}
+	if scopedRefused != 0 {
+		// the endpoint does not exist, or its route does not permit managed publish
+		w.Res.probe(fmt.Sprintf("publish.scoped.refused.%d", scopedRefused))
+		if resp.Status >= 200 && resp.Status < 300 {
+			w.add("C15.accepted.invalid", "C15", loc, "endpoint-scoped publish to %s/%s was accepted although the reference says %d", pr.ScopedApp, pr.ScopedEP, scopedRefused)
+			w.adoptAll(now)
+		}
+		return
+	}
+	if scopedRoute != nil {
+		w.Res.probe("publish.scoped")
+	}
 	var envs []queue.Envelope
 	var invalid []int
 	kinds := map[int]string{}
 	seen := map[string]bool{}
 	for i := range pr.Items {
-		why, env := w.itemVerdict(&pr.Items[i], ids[i], seen)
+		why, env := w.itemVerdict(&pr.Items[i], ids[i], seen, scopedRoute)
 		seen[strings.TrimSpace(ids[i])] = true
 		if why != "" {
 			invalid = append(invalid, i)
@@ -295,8 +342,34 @@ func (w *PublishWorld) Publish(pr *PubReq) {
 					onlyLate = false
 				}
 			}
+			// "naming the first offending item": items are checked one after the
+			// other; ids already in the queue are looked up once the whole batch
+			// has passed the per-item checks
+			// (the request body is parsed first - blank and repeated ids are
+			// shape errors of the body, found before any item is looked at for
+			// what it asks)
+			phase := func(k string) int {
+				switch k {
+				case "blank_id", "dup_in_batch":
+					return 0
+				case "id_exists":
+					return 2
+				}
+				return 1
+			}
+			firstEarly, firstPhase := -1, 3
+			for _, i := range invalid {
+				if ph := phase(kinds[i]); ph < 2 && (ph < firstPhase || ph == firstPhase && i < firstEarly) {
+					firstEarly, firstPhase = i, ph
+				}
+			}
+			if len(invalid) > 1 {
+				w.Res.probe("publish.several_invalid_items")
+			}
 			if !ok && !(idx == -1 && onlyLate) {
 				w.add("C15.error.index", "C15", loc, "rejected batch: item_index=%d, offending items are %v (%v)", idx, invalid, kinds)
+			} else if len(invalid) > 1 && firstEarly >= 0 && idx != firstEarly {
+				w.add("C15.error.first", "C15", loc, "rejected batch: item_index=%d (code %q), but the first offending item is %d (%s); offending items are %v (%v)", idx, out.Code, firstEarly, kinds[firstEarly], invalid, kinds)
 			} else if len(invalid) == 1 && idx != invalid[0] && idx != -1 {
 				w.add("C15.error.index", "C15", loc, "rejected batch: item_index=%d, the only offending item is %d (%s)", idx, invalid[0], kinds[invalid[0]])
 			}
@@ -545,10 +618,13 @@ func RunPublishProgram(p *Program) *Result {
 
 // ---- generator ---------------------------------------------------------------
 
-func genPubItem(t *rapid.T, spec *SysSpec, bad string) PubItem {
+func genPubItem(t *rapid.T, spec *SysSpec, bad string, fixed ...*RouteSpec) PubItem {
 	r := spec.Routes[rapid.IntRange(0, len(spec.Routes)-1).Draw(t, "route")]
-	for i := 0; i < 4 && (r.PublishOff || r.DirectOff); i++ {
+	for i := 0; i < 4 && (r.PublishOff || r.DirectOff || r.App != ""); i++ {
 		r = spec.Routes[rapid.IntRange(0, len(spec.Routes)-1).Draw(t, "route2")]
+	}
+	if len(fixed) > 0 && fixed[0] != nil {
+		r = *fixed[0] // endpoint-scoped publish: every item belongs to the endpoint's route
 	}
 	it := PubItem{ID: "new", Route: r.Path, Bad: bad}
 	tg := r.targets()
@@ -567,6 +643,9 @@ func genPubItem(t *rapid.T, spec *SysSpec, bad string) PubItem {
 	}
 	maxBody, _ := spec.limitsFor(&r)
 	switch bad {
+	case "selector_hint":
+		// endpoint-scoped publish only: the item names a route although the path
+		// already says which endpoint is meant (the wire keeps the route)
 	case "unknown_route":
 		it.Route = "/no/such/route"
 	case "publish_disabled":
@@ -638,6 +717,13 @@ func GenPublishProgram(t *rapid.T, mutations bool) *Program {
 		case 1:
 			r.DirectOff = true
 		}
+		if rapid.IntRange(0, 2).Draw(t, "managed?") == 0 {
+			// a managed endpoint: publish goes through the endpoint-scoped path
+			r.App, r.Endpoint = fmt.Sprintf("app%d", i%2), fmt.Sprintf("ep%d", i)
+			if rapid.IntRange(0, 5).Draw(t, "managed_off") == 4 {
+				r.ManagedOff = true
+			}
+		}
 		if rapid.IntRange(0, 2).Draw(t, "limits") == 0 {
 			r.MaxBody = rapid.SampledFrom([]int{8, 64}).Draw(t, "max_body")
 			r.MaxHeaders = rapid.SampledFrom([]int{32, 256}).Draw(t, "max_headers")
@@ -658,18 +744,51 @@ func GenPublishProgram(t *rapid.T, mutations bool) *Program {
 			cnt := rapid.SampledFrom([]int{1, 1, 2, 3, 5, 12}).Draw(t, "count")
 			badAt := -1
 			bad := ""
+			kindsPool := pubBadKinds
+			var scoped *RouteSpec
+			var managed []int
+			for ri := range spec.Routes {
+				if spec.Routes[ri].App != "" {
+					managed = append(managed, ri)
+				}
+			}
+			if len(managed) > 0 && rapid.IntRange(0, 2).Draw(t, "scoped?") == 0 {
+				scoped = &spec.Routes[managed[rapid.IntRange(0, len(managed)-1).Draw(t, "scoped.route")]]
+				pr.ScopedApp, pr.ScopedEP = scoped.App, scoped.Endpoint
+				kindsPool = []string{"selector_hint", "selector_hint", "payload_too_large", "bad_base64", "bad_header", "bad_timestamp", "blank_id", "id_exists", "target_unknown", "dup_in_batch"}
+				if rapid.IntRange(0, 11).Draw(t, "scoped.unknown") == 7 {
+					pr.ScopedEP = "no-such-endpoint"
+				}
+			}
 			if rapid.IntRange(0, 9).Draw(t, "invalid?") < 5 {
 				badAt = rapid.IntRange(0, cnt-1).Draw(t, "bad_at")
-				bad = rapid.SampledFrom(pubBadKinds).Draw(t, "bad_kind")
+				bad = rapid.SampledFrom(kindsPool).Draw(t, "bad_kind")
+			}
+			// sometimes a second invalid item of another kind, before or after the first
+			bad2At, bad2 := -1, ""
+			if badAt >= 0 && cnt > 1 && rapid.IntRange(0, 2).Draw(t, "invalid2?") == 0 {
+				bad2At = rapid.IntRange(0, cnt-2).Draw(t, "bad2_at")
+				if bad2At >= badAt {
+					bad2At++
+				}
+				for k := 0; k < 4; k++ {
+					bad2 = rapid.SampledFrom(kindsPool).Draw(t, "bad2_kind")
+					if bad2 != bad && bad2 != "dup_in_batch" {
+						break
+					}
+					bad2 = "bad_base64"
+				}
 			}
 			for j := 0; j < cnt; j++ {
 				b := ""
 				if j == badAt {
 					b = bad
+				} else if j == bad2At {
+					b = bad2
 				} else if rapid.IntRange(0, 9).Draw(t, "boundary") == 0 {
 					b = "boundary_payload"
 				}
-				pr.Items = append(pr.Items, genPubItem(t, spec, b))
+				pr.Items = append(pr.Items, genPubItem(t, spec, b, scoped))
 			}
 			if bad == "dup_in_batch" && cnt > 1 {
 				src := 0
